@@ -3,12 +3,13 @@
 package tacquito
 
 // C01 — wire format conforms to the RFC 8907 layouts.
-// Oracles are index equations written from RFC 8907 sections 4.1, 5.1-5.3, 6.1-6.2, 7.1-7.2.
+// Oracles are index equations written from RFC 8907 sections 4.1, 5.1-5.3, 6.1-6.2, 7.1-7.2,
+// not from the code.  Encode direction: for every value the encoder accepts, the bytes are the
+// layout.  Decode direction: bytes laid out per the RFC from valid field values decode to those
+// values.  Wire-width overflow (a field longer than its length field) is excluded here by
+// assumption; refusing it is C02's clause.
 
-func vpIdx(n int) int {
-	// a fresh index < n (caller guarantees n > 0)
-	return vpInt(0, n-1)
-}
+// ---------------------------------------------------------------- header (4.1)
 
 func vpH_C01_Header_Encode() {
 	h := Header{
@@ -27,7 +28,6 @@ func vpH_C01_Header_Encode() {
 	vpReach("C01.Header.encoded")
 	vpObserveBytes("out", out)
 	vpAssert(len(out) == 12, "C01.Header.len")
-	// RFC 8907 4.1: major version is the high nibble (0xc), minor the low nibble
 	vpAssert(out[0] == 0xc0|h.Version.MinorVersion, "C01.Header.version")
 	vpAssert(h.Version.MajorVersion == 0xc, "C01.Header.major")
 	vpAssert(h.Version.MinorVersion <= 1, "C01.Header.minor")
@@ -48,6 +48,24 @@ func vpH_C01_Header_Encode() {
 	vpAssert(out[10] == byte(h.Length>>8), "C01.Header.len2")
 	vpAssert(out[11] == byte(h.Length), "C01.Header.len3")
 	vpReach("C01.Header.end")
+}
+
+// every valid header value must be accepted by the encoder
+func vpH_C01_Header_EncodeAccepts() {
+	minor := vpU8()
+	typ := vpU8()
+	seq := vpU8()
+	ln := vpU32()
+	vpAssume(minor <= 1)
+	vpAssume(typ >= 1)
+	vpAssume(typ <= 3)
+	vpAssume(seq >= 1)
+	vpAssume(ln <= 65536)
+	h := Header{Version: Version{MajorVersion: 0xc, MinorVersion: minor}, Type: HeaderType(typ), SeqNo: SequenceNumber(seq),
+		SessionID: SessionID(vpU32()), Flags: HeaderFlag(vpU8()), Length: ln}
+	_, err := h.MarshalBinary()
+	vpAssert(err == nil, "C01.Header.accepts-valid")
+	vpReach("C01.HeaderAcc.end")
 }
 
 func vpH_C01_Header_Decode() {
@@ -83,6 +101,60 @@ func vpH_C01_Header_Decode() {
 	vpReach("C01.HeaderDec.end")
 }
 
+// ---------------------------------------------------------------- packet = header ‖ body
+
+func vpH_C01_Packet_Encode() {
+	n := vpBound("text", 6)
+	body := vpBytes(n)
+	h := &Header{Version: Version{MajorVersion: 0xc, MinorVersion: vpU8()}, Type: HeaderType(vpU8()), SeqNo: SequenceNumber(vpU8()),
+		SessionID: SessionID(vpU32()), Flags: HeaderFlag(vpU8()), Length: uint32(len(body))}
+	p := &Packet{Header: h, Body: body}
+	out, err := p.MarshalBinary()
+	if err != nil {
+		vpReach("C01.Packet.refused")
+		return
+	}
+	vpReach("C01.Packet.encoded")
+	vpAssert(len(out) == 12+len(body), "C01.Packet.len")
+	vpAssert(out[0] == 0xc0|h.Version.MinorVersion, "C01.Packet.version")
+	vpAssert(out[1] == byte(h.Type), "C01.Packet.type")
+	vpAssert(out[2] == byte(h.SeqNo), "C01.Packet.seq")
+	vpAssert(out[3] == byte(h.Flags), "C01.Packet.flags")
+	vpAssert(out[8] == 0, "C01.Packet.len0")
+	vpAssert(out[9] == 0, "C01.Packet.len1")
+	vpAssert(out[10] == byte(len(body)>>8), "C01.Packet.len2")
+	vpAssert(out[11] == byte(len(body)), "C01.Packet.len3")
+	vpSameAt(out, 12, string(body), n, "C01.Packet.body")
+	vpReach("C01.Packet.end")
+}
+
+func vpH_C01_Packet_Decode() {
+	n := vpBound("dtext", 3)
+	body := vpBytesN(vpInt(0, n))
+	minor, typ, seq, flags, sid := vpU8(), vpU8(), vpU8(), vpU8(), vpU32()
+	vpAssume(minor <= 1)
+	vpAssume(typ >= 1)
+	vpAssume(typ <= 3)
+	vpAssume(seq >= 1)
+	ln := len(body)
+	data := []byte{0xc0 | minor, typ, seq, flags,
+		byte(sid >> 24), byte(sid >> 16), byte(sid >> 8), byte(sid),
+		byte(ln >> 24), byte(ln >> 16), byte(ln >> 8), byte(ln)}
+	data = append(data, body...)
+	var p Packet
+	err := p.UnmarshalBinary(data)
+	vpAssert(err == nil, "C01.PacketDec.accepts")
+	vpAssert(p.Header != nil, "C01.PacketDec.header")
+	vpAssert(byte(p.Header.Type) == typ, "C01.PacketDec.type")
+	vpAssert(p.Header.SeqNo == SequenceNumber(seq), "C01.PacketDec.seq")
+	vpAssert(uint32(p.Header.SessionID) == sid, "C01.PacketDec.sid")
+	vpAssert(int(p.Header.Length) == ln, "C01.PacketDec.len")
+	vpSameStr(string(p.Body), string(body), n, "C01.PacketDec.body")
+	vpReach("C01.PacketDec.end")
+}
+
+// ---------------------------------------------------------------- authentication START (5.1)
+
 func vpH_C01_AuthenStart_Encode() {
 	n := vpBound("text", 6)
 	a := AuthenStart{
@@ -108,21 +180,405 @@ func vpH_C01_AuthenStart_Encode() {
 	vpAssert(out[5] == byte(p), "C01.AuthenStart.port_len")
 	vpAssert(out[6] == byte(r), "C01.AuthenStart.rem_addr_len")
 	vpAssert(out[7] == byte(d), "C01.AuthenStart.data_len")
-	if u > 0 {
-		i := vpIdx(u)
-		vpAssert(out[8+i] == a.User[i], "C01.AuthenStart.user")
-	}
-	if p > 0 {
-		i := vpIdx(p)
-		vpAssert(out[8+u+i] == a.Port[i], "C01.AuthenStart.port")
-	}
-	if r > 0 {
-		i := vpIdx(r)
-		vpAssert(out[8+u+p+i] == a.RemAddr[i], "C01.AuthenStart.rem_addr")
-	}
-	if d > 0 {
-		i := vpIdx(d)
-		vpAssert(out[8+u+p+r+i] == a.Data[i], "C01.AuthenStart.data")
-	}
+	vpSameAt(out, 8, string(a.User), n, "C01.AuthenStart.user")
+	vpSameAt(out, 8+u, string(a.Port), n, "C01.AuthenStart.port")
+	vpSameAt(out, 8+u+p, string(a.RemAddr), n, "C01.AuthenStart.rem_addr")
+	vpSameAt(out, 8+u+p+r, string(a.Data), n, "C01.AuthenStart.data")
 	vpReach("C01.AuthenStart.end")
+}
+
+func vpValidAuthenFixed(action, priv, typ, svc uint8) bool {
+	return vpAnd(vpAnd(vpInSet(action, 1, 2, 4), priv <= 15), vpAnd(vpAnd(typ >= 1, typ <= 6), svc <= 9))
+}
+
+func vpH_C01_AuthenStart_Decode() {
+	n := vpBound("dtext", 3)
+	action, priv, typ, svc := vpU8(), vpU8(), vpU8(), vpU8()
+	user, port, rem, dat := vpStrN(vpInt(0, n)), vpStrN(vpInt(0, n)), vpStrN(vpInt(0, n)), vpStrN(vpInt(0, n))
+	b := []byte{action, priv, typ, svc, byte(len(user)), byte(len(port)), byte(len(rem)), byte(len(dat))}
+	b = append(b, user...)
+	b = append(b, port...)
+	b = append(b, rem...)
+	b = append(b, dat...)
+	var a AuthenStart
+	err := a.UnmarshalBinary(b)
+	valid := vpAnd(vpValidAuthenFixed(action, priv, typ, svc),
+		vpAnd(vpAnd(vpIsASCII(user), vpIsASCII(port)), vpAnd(vpIsASCII(rem), vpImp(typ == 1, vpIsASCII(dat)))))
+	vpAssert(vpImp(valid, err == nil), "C01.AuthenStartDec.accepts-valid")
+	if err != nil {
+		vpReach("C01.AuthenStartDec.refused")
+		return
+	}
+	vpReach("C01.AuthenStartDec.decoded")
+	vpAssert(byte(a.Action) == action, "C01.AuthenStartDec.action")
+	vpAssert(byte(a.PrivLvl) == priv, "C01.AuthenStartDec.priv")
+	vpAssert(byte(a.Type) == typ, "C01.AuthenStartDec.type")
+	vpAssert(byte(a.Service) == svc, "C01.AuthenStartDec.service")
+	vpSameStr(string(a.User), user, n, "C01.AuthenStartDec.user")
+	vpSameStr(string(a.Port), port, n, "C01.AuthenStartDec.port")
+	vpSameStr(string(a.RemAddr), rem, n, "C01.AuthenStartDec.rem_addr")
+	vpSameStr(string(a.Data), dat, n, "C01.AuthenStartDec.data")
+	vpReach("C01.AuthenStartDec.end")
+}
+
+// ---------------------------------------------------------------- authentication REPLY (5.2)
+
+func vpH_C01_AuthenReply_Encode() {
+	n := vpBound("text", 6)
+	a := AuthenReply{Status: AuthenStatus(vpU8()), Flags: AuthenReplyFlag(vpU8()),
+		ServerMsg: AuthenServerMsg(vpStr(n)), Data: AuthenData(vpStr(n))}
+	out, err := a.MarshalBinary()
+	if err != nil {
+		vpReach("C01.AuthenReply.refused")
+		return
+	}
+	vpReach("C01.AuthenReply.encoded")
+	m, d := len(a.ServerMsg), len(a.Data)
+	vpAssert(len(out) == 6+m+d, "C01.AuthenReply.len")
+	vpAssert(out[0] == byte(a.Status), "C01.AuthenReply.status")
+	vpAssert(out[1] == byte(a.Flags), "C01.AuthenReply.flags")
+	vpAssert(out[2] == byte(m>>8), "C01.AuthenReply.server_msg_len_hi")
+	vpAssert(out[3] == byte(m), "C01.AuthenReply.server_msg_len_lo")
+	vpAssert(out[4] == byte(d>>8), "C01.AuthenReply.data_len_hi")
+	vpAssert(out[5] == byte(d), "C01.AuthenReply.data_len_lo")
+	vpSameAt(out, 6, string(a.ServerMsg), n, "C01.AuthenReply.server_msg")
+	vpSameAt(out, 6+m, string(a.Data), n, "C01.AuthenReply.data")
+	vpReach("C01.AuthenReply.end")
+}
+
+func vpH_C01_AuthenReply_Decode() {
+	n := vpBound("dtext", 3)
+	status, flags := vpU8(), vpU8()
+	msg, dat := vpStrN(vpInt(0, n)), vpStrN(vpInt(0, n))
+	b := []byte{status, flags, byte(len(msg) >> 8), byte(len(msg)), byte(len(dat) >> 8), byte(len(dat))}
+	b = append(b, msg...)
+	b = append(b, dat...)
+	var a AuthenReply
+	err := a.UnmarshalBinary(b)
+	vpAssert(vpImp(vpAnd(status >= 1, status <= 7), err == nil), "C01.AuthenReplyDec.accepts-valid")
+	if err != nil {
+		vpReach("C01.AuthenReplyDec.refused")
+		return
+	}
+	vpReach("C01.AuthenReplyDec.decoded")
+	vpAssert(byte(a.Status) == status, "C01.AuthenReplyDec.status")
+	vpAssert(byte(a.Flags) == flags, "C01.AuthenReplyDec.flags")
+	vpSameStr(string(a.ServerMsg), msg, n, "C01.AuthenReplyDec.server_msg")
+	vpSameStr(string(a.Data), dat, n, "C01.AuthenReplyDec.data")
+	vpReach("C01.AuthenReplyDec.end")
+}
+
+// ---------------------------------------------------------------- authentication CONTINUE (5.3)
+
+func vpH_C01_AuthenContinue_Encode() {
+	n := vpBound("text", 6)
+	a := AuthenContinue{Flags: AuthenContinueFlag(vpU8()), UserMessage: AuthenUserMessage(vpStr(n)), Data: AuthenData(vpStr(n))}
+	out, err := a.MarshalBinary()
+	if err != nil {
+		vpReach("C01.AuthenContinue.refused")
+		return
+	}
+	vpReach("C01.AuthenContinue.encoded")
+	m, d := len(a.UserMessage), len(a.Data)
+	vpAssert(len(out) == 5+m+d, "C01.AuthenContinue.len")
+	vpAssert(out[0] == byte(m>>8), "C01.AuthenContinue.user_msg_len_hi")
+	vpAssert(out[1] == byte(m), "C01.AuthenContinue.user_msg_len_lo")
+	vpAssert(out[2] == byte(d>>8), "C01.AuthenContinue.data_len_hi")
+	vpAssert(out[3] == byte(d), "C01.AuthenContinue.data_len_lo")
+	vpAssert(out[4] == byte(a.Flags), "C01.AuthenContinue.flags")
+	vpSameAt(out, 5, string(a.UserMessage), n, "C01.AuthenContinue.user_msg")
+	vpSameAt(out, 5+m, string(a.Data), n, "C01.AuthenContinue.data")
+	vpReach("C01.AuthenContinue.end")
+}
+
+func vpH_C01_AuthenContinue_Decode() {
+	n := vpBound("dtext", 3)
+	flags := vpU8()
+	msg, dat := vpStrN(vpInt(0, n)), vpStrN(vpInt(0, n))
+	b := []byte{byte(len(msg) >> 8), byte(len(msg)), byte(len(dat) >> 8), byte(len(dat)), flags}
+	b = append(b, msg...)
+	b = append(b, dat...)
+	var a AuthenContinue
+	err := a.UnmarshalBinary(b)
+	vpAssert(vpImp(vpIsASCII(msg), err == nil), "C01.AuthenContinueDec.accepts-valid")
+	if err != nil {
+		vpReach("C01.AuthenContinueDec.refused")
+		return
+	}
+	vpReach("C01.AuthenContinueDec.decoded")
+	vpAssert(byte(a.Flags) == flags, "C01.AuthenContinueDec.flags")
+	vpSameStr(string(a.UserMessage), msg, n, "C01.AuthenContinueDec.user_msg")
+	vpSameStr(string(a.Data), dat, n, "C01.AuthenContinueDec.data")
+	vpReach("C01.AuthenContinueDec.end")
+}
+
+// ---------------------------------------------------------------- authorization REQUEST (6.1)
+
+// vpArgsLayout checks arg_cnt/arg_len octets at lenOff.. and argument bytes from dataOff.
+func vpArgsLayout(out []byte, lenOff, dataOff int, args Args, maxLen int, id string) {
+	off := dataOff
+	for k := 0; k < len(args); k++ {
+		vpAssert(vpAt(out, lenOff+k) == byte(len(args[k])), id+".arg_len")
+		vpSameAt(out, off, string(args[k]), maxLen, id+".arg")
+		off += len(args[k])
+	}
+}
+
+func vpArgsTotal(args Args) int {
+	t := 0
+	for _, a := range args {
+		t += len(a)
+	}
+	return t
+}
+
+func vpH_C01_AuthorRequest_Encode() {
+	n := vpBound("text", 6)
+	an, al := vpBound("args", 2), vpBound("arglen", 4)
+	a := AuthorRequest{Method: AuthenMethod(vpU8()), PrivLvl: PrivLvl(vpU8()), Type: AuthenType(vpU8()), Service: AuthenService(vpU8()),
+		User: AuthenUser(vpStr(n)), Port: AuthenPort(vpStr(n)), RemAddr: AuthenRemAddr(vpStr(n)), Args: vpArgList(an, al)}
+	out, err := a.MarshalBinary()
+	if err != nil {
+		vpReach("C01.AuthorRequest.refused")
+		return
+	}
+	vpReach("C01.AuthorRequest.encoded")
+	u, p, r, c := len(a.User), len(a.Port), len(a.RemAddr), len(a.Args)
+	vpAssert(len(out) == 8+c+u+p+r+vpArgsTotal(a.Args), "C01.AuthorRequest.len")
+	vpAssert(out[0] == byte(a.Method), "C01.AuthorRequest.method")
+	vpAssert(out[1] == byte(a.PrivLvl), "C01.AuthorRequest.priv")
+	vpAssert(out[2] == byte(a.Type), "C01.AuthorRequest.type")
+	vpAssert(out[3] == byte(a.Service), "C01.AuthorRequest.service")
+	vpAssert(out[4] == byte(u), "C01.AuthorRequest.user_len")
+	vpAssert(out[5] == byte(p), "C01.AuthorRequest.port_len")
+	vpAssert(out[6] == byte(r), "C01.AuthorRequest.rem_addr_len")
+	vpAssert(out[7] == byte(c), "C01.AuthorRequest.arg_cnt")
+	vpSameAt(out, 8+c, string(a.User), n, "C01.AuthorRequest.user")
+	vpSameAt(out, 8+c+u, string(a.Port), n, "C01.AuthorRequest.port")
+	vpSameAt(out, 8+c+u+p, string(a.RemAddr), n, "C01.AuthorRequest.rem_addr")
+	vpArgsLayout(out, 8, 8+c+u+p+r, a.Args, al, "C01.AuthorRequest")
+	vpReach("C01.AuthorRequest.end")
+}
+
+func vpAppendArgs(lens, data []byte, args Args) ([]byte, []byte) {
+	for _, a := range args {
+		lens = append(lens, byte(len(a)))
+		data = append(data, a...)
+	}
+	return lens, data
+}
+
+func vpArgsValid(args Args, min int) bool {
+	ok := true
+	for _, a := range args {
+		ok = vpAnd(ok, vpAnd(vpIsASCII(string(a)), len(a) >= min))
+	}
+	return ok
+}
+
+func vpSameArgs(got, want Args, maxLen int, id string) {
+	vpAssert(len(got) == len(want), id+".arg_cnt")
+	for k := 0; k < len(want) && k < len(got); k++ {
+		vpSameStr(string(got[k]), string(want[k]), maxLen, id+".arg")
+	}
+}
+
+func vpH_C01_AuthorRequest_Decode() {
+	n := vpBound("dtext", 3)
+	an, al := vpBound("dargs", 1), vpBound("darglen", 3)
+	method, priv, typ, svc := vpU8(), vpU8(), vpU8(), vpU8()
+	user, port, rem := vpStrN(vpInt(0, n)), vpStrN(vpInt(0, n)), vpStrN(vpInt(0, n))
+	args := vpArgListN(an, al)
+	b := []byte{method, priv, typ, svc, byte(len(user)), byte(len(port)), byte(len(rem)), byte(len(args))}
+	var tail []byte
+	b, tail = vpAppendArgs(b, nil, args)
+	b = append(b, user...)
+	b = append(b, port...)
+	b = append(b, rem...)
+	b = append(b, tail...)
+	var a AuthorRequest
+	err := a.UnmarshalBinary(b)
+	valid := vpAnd(vpAnd(vpInSet(method, 0, 1, 2, 3, 4, 5, 6, 8, 16), priv <= 15), vpAnd(typ <= 6, svc <= 9))
+	valid = vpAnd(valid, vpAnd(vpAnd(vpIsASCII(user), vpIsASCII(port)), vpAnd(vpIsASCII(rem), vpArgsValid(args, 2))))
+	vpAssert(vpImp(valid, err == nil), "C01.AuthorRequestDec.accepts-valid")
+	if err != nil {
+		vpReach("C01.AuthorRequestDec.refused")
+		return
+	}
+	vpReach("C01.AuthorRequestDec.decoded")
+	vpAssert(byte(a.Method) == method, "C01.AuthorRequestDec.method")
+	vpAssert(byte(a.PrivLvl) == priv, "C01.AuthorRequestDec.priv")
+	vpAssert(byte(a.Type) == typ, "C01.AuthorRequestDec.type")
+	vpAssert(byte(a.Service) == svc, "C01.AuthorRequestDec.service")
+	vpSameStr(string(a.User), user, n, "C01.AuthorRequestDec.user")
+	vpSameStr(string(a.Port), port, n, "C01.AuthorRequestDec.port")
+	vpSameStr(string(a.RemAddr), rem, n, "C01.AuthorRequestDec.rem_addr")
+	vpSameArgs(a.Args, args, al, "C01.AuthorRequestDec")
+	vpReach("C01.AuthorRequestDec.end")
+}
+
+// ---------------------------------------------------------------- authorization REPLY (6.2)
+
+func vpH_C01_AuthorReply_Encode() {
+	n := vpBound("text", 6)
+	an, al := vpBound("args", 2), vpBound("arglen", 4)
+	a := AuthorReply{Status: AuthorStatus(vpU8()), Args: vpArgList(an, al), ServerMsg: AuthorServerMsg(vpStr(n)), Data: AuthorData(vpStr(n))}
+	out, err := a.MarshalBinary()
+	if err != nil {
+		vpReach("C01.AuthorReply.refused")
+		return
+	}
+	vpReach("C01.AuthorReply.encoded")
+	m, d, c := len(a.ServerMsg), len(a.Data), len(a.Args)
+	vpAssert(len(out) == 6+c+m+d+vpArgsTotal(a.Args), "C01.AuthorReply.len")
+	vpAssert(out[0] == byte(a.Status), "C01.AuthorReply.status")
+	vpAssert(out[1] == byte(c), "C01.AuthorReply.arg_cnt")
+	vpAssert(out[2] == byte(m>>8), "C01.AuthorReply.server_msg_len_hi")
+	vpAssert(out[3] == byte(m), "C01.AuthorReply.server_msg_len_lo")
+	vpAssert(out[4] == byte(d>>8), "C01.AuthorReply.data_len_hi")
+	vpAssert(out[5] == byte(d), "C01.AuthorReply.data_len_lo")
+	vpSameAt(out, 6+c, string(a.ServerMsg), n, "C01.AuthorReply.server_msg")
+	vpSameAt(out, 6+c+m, string(a.Data), n, "C01.AuthorReply.data")
+	vpArgsLayout(out, 6, 6+c+m+d, a.Args, al, "C01.AuthorReply")
+	vpReach("C01.AuthorReply.end")
+}
+
+func vpH_C01_AuthorReply_Decode() {
+	n := vpBound("dtext", 3)
+	an, al := vpBound("dargs", 1), vpBound("darglen", 3)
+	status := vpU8()
+	msg, dat := vpStrN(vpInt(0, n)), vpStrN(vpInt(0, n))
+	args := vpArgListN(an, al)
+	b := []byte{status, byte(len(args)), byte(len(msg) >> 8), byte(len(msg)), byte(len(dat) >> 8), byte(len(dat))}
+	var tail []byte
+	b, tail = vpAppendArgs(b, nil, args)
+	b = append(b, msg...)
+	b = append(b, dat...)
+	b = append(b, tail...)
+	var a AuthorReply
+	err := a.UnmarshalBinary(b)
+	valid := vpAnd(vpInSet(status, 1, 2, 16, 17), vpAnd(vpAnd(vpIsASCII(msg), vpIsASCII(dat)), vpArgsValid(args, 2)))
+	vpAssert(vpImp(valid, err == nil), "C01.AuthorReplyDec.accepts-valid")
+	if err != nil {
+		vpReach("C01.AuthorReplyDec.refused")
+		return
+	}
+	vpReach("C01.AuthorReplyDec.decoded")
+	vpAssert(byte(a.Status) == status, "C01.AuthorReplyDec.status")
+	vpSameStr(string(a.ServerMsg), msg, n, "C01.AuthorReplyDec.server_msg")
+	vpSameStr(string(a.Data), dat, n, "C01.AuthorReplyDec.data")
+	vpSameArgs(a.Args, args, al, "C01.AuthorReplyDec")
+	vpReach("C01.AuthorReplyDec.end")
+}
+
+// ---------------------------------------------------------------- accounting REQUEST (7.1)
+
+func vpH_C01_AcctRequest_Encode() {
+	n := vpBound("text", 6)
+	an, al := vpBound("args", 2), vpBound("arglen", 4)
+	a := AcctRequest{Flags: AcctRequestFlag(vpU8()), Method: AuthenMethod(vpU8()), PrivLvl: PrivLvl(vpU8()), Type: AuthenType(vpU8()),
+		Service: AuthenService(vpU8()), User: AuthenUser(vpStr(n)), Port: AuthenPort(vpStr(n)), RemAddr: AuthenRemAddr(vpStr(n)), Args: vpArgList(an, al)}
+	out, err := a.MarshalBinary()
+	if err != nil {
+		vpReach("C01.AcctRequest.refused")
+		return
+	}
+	vpReach("C01.AcctRequest.encoded")
+	u, p, r, c := len(a.User), len(a.Port), len(a.RemAddr), len(a.Args)
+	vpAssert(len(out) == 9+c+u+p+r+vpArgsTotal(a.Args), "C01.AcctRequest.len")
+	vpAssert(out[0] == byte(a.Flags), "C01.AcctRequest.flags")
+	vpAssert(out[1] == byte(a.Method), "C01.AcctRequest.method")
+	vpAssert(out[2] == byte(a.PrivLvl), "C01.AcctRequest.priv")
+	vpAssert(out[3] == byte(a.Type), "C01.AcctRequest.type")
+	vpAssert(out[4] == byte(a.Service), "C01.AcctRequest.service")
+	vpAssert(out[5] == byte(u), "C01.AcctRequest.user_len")
+	vpAssert(out[6] == byte(p), "C01.AcctRequest.port_len")
+	vpAssert(out[7] == byte(r), "C01.AcctRequest.rem_addr_len")
+	vpAssert(out[8] == byte(c), "C01.AcctRequest.arg_cnt")
+	vpSameAt(out, 9+c, string(a.User), n, "C01.AcctRequest.user")
+	vpSameAt(out, 9+c+u, string(a.Port), n, "C01.AcctRequest.port")
+	vpSameAt(out, 9+c+u+p, string(a.RemAddr), n, "C01.AcctRequest.rem_addr")
+	vpArgsLayout(out, 9, 9+c+u+p+r, a.Args, al, "C01.AcctRequest")
+	vpReach("C01.AcctRequest.end")
+}
+
+func vpH_C01_AcctRequest_Decode() {
+	n := vpBound("dtext", 3)
+	an, al := vpBound("dargs", 1), vpBound("darglen", 3)
+	flags, method, priv, typ, svc := vpU8(), vpU8(), vpU8(), vpU8(), vpU8()
+	user, port, rem := vpStrN(vpInt(0, n)), vpStrN(vpInt(0, n)), vpStrN(vpInt(0, n))
+	args := vpArgListN(an, al)
+	b := []byte{flags, method, priv, typ, svc, byte(len(user)), byte(len(port)), byte(len(rem)), byte(len(args))}
+	var tail []byte
+	b, tail = vpAppendArgs(b, nil, args)
+	b = append(b, user...)
+	b = append(b, port...)
+	b = append(b, rem...)
+	b = append(b, tail...)
+	var a AcctRequest
+	err := a.UnmarshalBinary(b)
+	valid := vpAnd(vpAnd(vpInSet(method, 0, 1, 2, 3, 4, 5, 6, 8, 16), priv <= 15), vpAnd(typ <= 6, svc <= 9))
+	valid = vpAnd(valid, vpAnd(vpAnd(vpIsASCII(user), vpIsASCII(port)), vpAnd(vpIsASCII(rem), vpArgsValid(args, 0))))
+	valid = vpAnd(valid, flags&0x0c != 0x0c) // stop (0x04) together with watchdog (0x08) is contradictory
+	vpAssert(vpImp(valid, err == nil), "C01.AcctRequestDec.accepts-valid")
+	if err != nil {
+		vpReach("C01.AcctRequestDec.refused")
+		return
+	}
+	vpReach("C01.AcctRequestDec.decoded")
+	vpAssert(byte(a.Flags) == flags, "C01.AcctRequestDec.flags")
+	vpAssert(byte(a.Method) == method, "C01.AcctRequestDec.method")
+	vpAssert(byte(a.PrivLvl) == priv, "C01.AcctRequestDec.priv")
+	vpAssert(byte(a.Type) == typ, "C01.AcctRequestDec.type")
+	vpAssert(byte(a.Service) == svc, "C01.AcctRequestDec.service")
+	vpSameStr(string(a.User), user, n, "C01.AcctRequestDec.user")
+	vpSameStr(string(a.Port), port, n, "C01.AcctRequestDec.port")
+	vpSameStr(string(a.RemAddr), rem, n, "C01.AcctRequestDec.rem_addr")
+	vpSameArgs(a.Args, args, al, "C01.AcctRequestDec")
+	vpReach("C01.AcctRequestDec.end")
+}
+
+// ---------------------------------------------------------------- accounting REPLY (7.2)
+
+func vpH_C01_AcctReply_Encode() {
+	n := vpBound("text", 6)
+	a := AcctReply{Status: AcctReplyStatus(vpU8()), ServerMsg: AcctServerMsg(vpStr(n)), Data: AcctData(vpStr(n))}
+	out, err := a.MarshalBinary()
+	if err != nil {
+		vpReach("C01.AcctReply.refused")
+		return
+	}
+	vpReach("C01.AcctReply.encoded")
+	m, d := len(a.ServerMsg), len(a.Data)
+	vpAssert(len(out) == 5+m+d, "C01.AcctReply.len")
+	vpAssert(out[0] == byte(m>>8), "C01.AcctReply.server_msg_len_hi")
+	vpAssert(out[1] == byte(m), "C01.AcctReply.server_msg_len_lo")
+	vpAssert(out[2] == byte(d>>8), "C01.AcctReply.data_len_hi")
+	vpAssert(out[3] == byte(d), "C01.AcctReply.data_len_lo")
+	vpAssert(out[4] == byte(a.Status), "C01.AcctReply.status")
+	vpSameAt(out, 5, string(a.ServerMsg), n, "C01.AcctReply.server_msg")
+	vpSameAt(out, 5+m, string(a.Data), n, "C01.AcctReply.data")
+	vpReach("C01.AcctReply.end")
+}
+
+func vpH_C01_AcctReply_Decode() {
+	n := vpBound("dtext", 3)
+	status := vpU8()
+	msg, dat := vpStrN(vpInt(0, n)), vpStrN(vpInt(0, n))
+	b := []byte{byte(len(msg) >> 8), byte(len(msg)), byte(len(dat) >> 8), byte(len(dat)), status}
+	b = append(b, msg...)
+	b = append(b, dat...)
+	var a AcctReply
+	err := a.UnmarshalBinary(b)
+	valid := vpAnd(vpInSet(status, 1, 2), vpAnd(vpIsASCII(msg), vpIsASCII(dat)))
+	vpAssert(vpImp(valid, err == nil), "C01.AcctReplyDec.accepts-valid")
+	if err != nil {
+		vpReach("C01.AcctReplyDec.refused")
+		return
+	}
+	vpReach("C01.AcctReplyDec.decoded")
+	vpAssert(byte(a.Status) == status, "C01.AcctReplyDec.status")
+	vpSameStr(string(a.ServerMsg), msg, n, "C01.AcctReplyDec.server_msg")
+	vpSameStr(string(a.Data), dat, n, "C01.AcctReplyDec.data")
+	vpReach("C01.AcctReplyDec.end")
 }
